@@ -39,9 +39,11 @@ u64 X_strlen(u8 *s)
   }
   u64 n = 0; while (s[n]) n++; return n;
 }
+#ifndef ENV_NO_EXIT
 u32 env_exit_called, env_exit_status;
 void X_exit(u32 status) { env_exit_called = 1; env_exit_status = status; ENV_ASSERT(0, "exit() called"); ENV_ASSUME(0); }
-u32 X_time(u8 *p) { (void)p; return (u32)nondet_u64(); }
+#endif
+u64 X_time(u8 *p) { (void)p; return nondet_u64(); }
 void X_srand(u32 s) { (void)s; }
 u32 X_rand(void) { return (u32)nondet_u64() & 0x7fffffff; }
 /* __gnu_cxx::__to_xstring (used by std::to_string(double) in the timing printout): returns an empty string */
@@ -50,3 +52,10 @@ void X__ZN9__gnu_cxx12__to_xstringINSt7__cxx1112basic_stringIcSt11char_traitsIcE
   (void)fn; (void)n; (void)fmt;
   *(u8 **)sret = sret + 16; *(u64 *)(sret + 8) = 0; sret[16] = 0;     /* SSO: {ptr -> local buf, size 0} */
 }
+/* <string.h> comparison functions that refactorings of the kernel may introduce */
+u32 X_strncmp(u8 *a, u8 *b, u64 n) { for (u64 i = 0; i < n; i++) { if (a[i] != b[i]) return a[i] < b[i] ? 0xffffffffu : 1u; if (a[i] == 0) return 0; } return 0; }
+u32 X_strcmp(u8 *a, u8 *b) { for (u64 i = 0;; i++) { if (a[i] != b[i]) return a[i] < b[i] ? 0xffffffffu : 1u; if (a[i] == 0) return 0; } }
+u32 X_memcmp(u8 *a, u8 *b, u64 n) { for (u64 i = 0; i < n; i++) if (a[i] != b[i]) return a[i] < b[i] ? 0xffffffffu : 1u; return 0; }
+u32 X_bcmp(u8 *a, u8 *b, u64 n) { return X_memcmp(a, b, n) != 0; }
+u8 *X_strncpy(u8 *d, u8 *s, u64 n) { u64 i = 0; for (; i < n && s[i]; i++) d[i] = s[i]; for (; i < n; i++) d[i] = 0; return d; }
+u8 *X_strcpy(u8 *d, u8 *s) { u64 i = 0; for (; s[i]; i++) d[i] = s[i]; d[i] = 0; return d; }
